@@ -4,6 +4,7 @@
   repairs of D9); helper lemmas: Mtv/Lemmas/C12*.lean.
 -/
 import Mtv.Lemmas.C12Loader
+import Mtv.Lemmas.C12Cut
 import Mtv.Session.Start
 namespace Mtv.Session
 
@@ -55,6 +56,43 @@ example : (writeSession exampleSession).take 30 <+: writeSession exampleSession 
   · intro h
     have := congrArg List.length h
     revert this; decide
+
+/-- Clause "a file cut short at any byte — as a crash during writing leaves it — is reported as an error, never as a
+different session", for the write itself and with ANY earlier content `old` at the path (an older session of the same
+length, a shorter one, a longer one, anything): `Store` ends in `ioutil.WriteFile`, which empties the file and then
+writes front to back (`cutWrite`), so a write of `s`'s file that stops after `k` bytes leaves a prefix of the NEW
+content and nothing of the old one; `Load` rejects it with a syntax error when the write stopped before the end, and it
+is the complete file when it did not. -/
+theorem cut_store_is_prefix_of_new (old : Bytes) (s : Session) (k : Nat) :
+    cutWrite old (writeSession s) k <+: writeSession s ∧
+    (k < (writeSession s).length → readSession (cutWrite old (writeSession s) k) = .err "syntax") ∧
+    ((writeSession s).length ≤ k → cutWrite old (writeSession s) k = writeSession s) :=
+  ⟨cutWrite_prefix old _ k, readSession_cutWrite old s k, cutWrite_full old _ k⟩
+
+example : cutWrite (writeSession cutOlder) (writeSession cutNewer) 34 = (writeSession cutNewer).take 34 ∧
+    34 < (writeSession cutNewer).length := by decide
+
+/-- … so after a cut store `Load` gives an error or the newer session — never the older one, never a third: the
+classification of what is read back against the two stored sessions, for every earlier content, every good newer
+session and every cut point (`k ≥ length` = the write got through). -/
+theorem cut_store_error_or_new (older newer : Session) (hn : newer.Good) (old : Bytes) (k : Nat) :
+    classifyCut older newer (cutWrite old (writeSession newer) k) =
+      (if k < (writeSession newer).length then CutClass.error else CutClass.newer) :=
+  classifyCut_cutWrite older newer hn old k
+
+example : cutNewer.Good ∧ classifyCut cutOlder cutNewer (cutWrite (writeSession cutOlder) (writeSession cutNewer) 34) = .error := by
+  decide +kernel
+
+/-- Why the order "empty the file, then write" matters: a store that writes over the old file in place (no
+truncation first) and is cut leaves new bytes followed by old ones, and there are two good sessions — the ordinary
+update, only the salt differs — and a cut point inside the salt for which that mixture is a well-formed session file
+holding a THIRD session (salt 61695 where 0 and −1 were stored): `Load` would return, without error, a session nobody
+stored. The harness makes the same cut on the real `Store` with the operating system's file-size limit (`c12.cut`). -/
+theorem overwrite_in_place_third_session :
+    ∃ (older newer : Session) (k : Nat), older.Good ∧ newer.Good ∧
+      classifyCut older newer (cutWriteInPlace (writeSession older) (writeSession newer) k) = .third ∧
+      classifyCut older newer (cutWrite (writeSession older) (writeSession newer) k) = .error :=
+  ⟨cutOlder, cutNewer, 34, by decide, by decide, by decide +kernel, by decide +kernel⟩
 
 /-! ## the loader -/
 
